@@ -1,16 +1,21 @@
 #!/bin/bash
-# usage: tools/seeded_regress.sh [ids...]   — applies each seeded change to /repo, runs the check of its property, records the outcome
-# in seeded/<id>/result.txt, reverts.  VERIF_DEV_SKIP_KANI=1 in the environment restricts to the Verus obligations (fast triage).
+# usage: tools/seeded_regress.sh [ids...]   — applies each seeded change to a scratch worktree of /repo's HEAD (never to /repo),
+# runs the check of its property against that worktree in a developer sandbox (.work-seeded/), records the outcome in
+# seeded/<id>/result.txt.   VERIF_DEV_SKIP_KANI=1 restricts to the Verus obligations (fast triage).
 cd /verif
+WT=${WT:-/tmp/wt_seeded_$$}
+git -C /repo worktree add --detach $WT HEAD -q || exit 3
+trap 'git -C /repo worktree remove --force $WT' EXIT
+export VERIF_REPO=$WT VERIF_DEV_SANDBOX=${VERIF_DEV_SANDBOX:-seeded}
 ids="$@"; [ -z "$ids" ] && ids=$(ls seeded)
 for id in $ids; do
   prop=${id%%-*}
-  if ! git -C /repo apply --check /verif/seeded/$id/patch.diff 2>/dev/null; then echo "$id: patch no longer applies to the current tree"; echo "patch does not apply to current /repo HEAD" > seeded/$id/result.txt; continue; fi
-  git -C /repo apply /verif/seeded/$id/patch.diff
-  bin/check $prop --tier quick > /tmp/seeded_$id.out 2>&1; rc=$?
-  git -C /repo checkout -- .
+  if ! git -C $WT apply --check /verif/seeded/$id/patch.diff 2>/dev/null; then echo "$id: patch no longer applies to the current tree"; echo "patch does not apply to current /repo HEAD" > seeded/$id/result.txt; continue; fi
+  git -C $WT apply /verif/seeded/$id/patch.diff
+  bin/check $prop --tier ${TIER:-quick} > /tmp/seeded_$id.out 2>&1; rc=$?
+  git -C $WT checkout -- .
   ob=$(grep -E "^FAILED-OBLIGATION|^UNDECIDED" /tmp/seeded_$id.out | sed -E 's/ replay=.*//; s/ reason=.*//' | tr '\n' ';' | cut -c1-300)
   mode="all engines"; [ -n "$VERIF_DEV_SKIP_KANI" ] && mode="verus obligations only"
-  echo "$id: check $prop exit=$rc ($mode) $ob"
-  echo "bin/check $prop --tier quick  => exit=$rc ($mode)  $ob" > seeded/$id/result.txt
+  echo "$id: check $prop exit=$rc ($mode, tier ${TIER:-quick}) $ob"
+  echo "bin/check $prop --tier ${TIER:-quick}  => exit=$rc ($mode)  $ob" > seeded/$id/result.txt
 done
